@@ -351,6 +351,10 @@ def cases(rng, tier, shard, nshards):
         else:
             pts, meta = gen.curve(rng, family=pick(rng, FAMILIES), nmax=80)
             fam = meta['family']
+        if rng.random() < 0.03 and grid is None and not dec:
+            # the same curve in base units (exact rescaling by a power of two): ranges far below machine epsilon
+            pts = pts * np.array([float(2.0 ** -int(pick(rng, [0, 0, 60, 75]))), float(2.0 ** -int(pick(rng, [60, 70, 80])))])
+            fam = str(fam) + '+tiny-scale'
         lay = None
         if rng.random() < 0.04:
             # integral coordinates of magnitude 1e9..1e10 as int64
